@@ -227,12 +227,13 @@ theorem C12_binOps_are_binary : ∀ o ∈ binOps, Bin o := by
     exact ⟨rfl, by decide⟩
 
 /-- **Round trip.**  For every operator tree `t` over atoms (identifiers, integer, decimal, string,
-    boolean and regexp literals), prefix operators (`!`, `-`, `√`) and binary operators - of any size and
-    shape (nesting below the parser's guard of 2000) - printed by `T.pr` with a pair of parentheses
-    exactly around a left operand of lower level, around a right operand of lower or equal level, and
-    around a binary operand of a prefix operator, `return <that text>;` parses to exactly `t`.  Hence:
-    prefix binds tighter than every binary operator, higher level binds tighter, equal levels group left
-    to right, parentheses override, for expressions of unbounded size. -/
+    boolean and regexp literals), prefix operators (`!`, `-`, `√`), binary operators and index expressions
+    `l[i]` - of any size and shape (nesting below the parser's guard of 2000) - printed by `T.pr` with a
+    pair of parentheses exactly around a left operand of lower level, around a right operand of lower or
+    equal level, around a binary operand of a prefix operator, and around an indexed operand that is not
+    an atom or an index expression itself, `return <that text>;` parses to exactly `t`.  Hence: indexing
+    binds tighter than prefix operators, those tighter than every binary operator, higher level binds
+    tighter, equal levels group left to right, parentheses override, for expressions of unbounded size. -/
 theorem C12_round_trip (t : T) (hwf : t.wf) (hn : t.nest ≤ maxNesting) :
     parse (retTok :: t.pr ++ [semiTok, Token.eof]) = some [.ret t.toExpr] :=
   pratt_round_trip t hwf hn
@@ -268,7 +269,11 @@ theorem C12_round_trip_example :
     let t : T := .node star (.node plus (idT ['a']) (idT ['b'])) (.pre minus (.node minus (idT ['c']) (.node minus (idT ['d']) (idT ['e']))))
     t.pr.map (·.lit) = [['('], ['a'], ['+'], ['b'], [')'], ['*'], ['-'], ['('], ['c'], ['-'], ['('], ['d'], ['-'], ['e'], [')'], [')']] ∧
     t.nest ≤ maxNesting ∧
-    (T.pre bang (.pre bang (idT ['a']))).pr.map (·.lit) = [['!'], ['!'], ['a']] := by
+    (T.pre bang (.pre bang (idT ['a']))).pr.map (·.lit) = [['!'], ['!'], ['a']] ∧
+    -- -a[i + 1][0] is -((a[i + 1])[0]);  (-a)[0] needs its parentheses
+    (T.pre minus (.idx (.idx (idT ['a']) (.node plus (idT ['i']) (idT ['1']))) (idT ['0']))).pr.map (·.lit) =
+      [['-'], ['a'], ['['], ['i'], ['+'], ['1'], [']'], ['['], ['0'], [']']] ∧
+    (T.idx (.pre minus (idT ['a'])) (idT ['0'])).pr.map (·.lit) = [['('], ['-'], ['a'], [')'], ['['], ['0'], [']']] := by
   decide
 
 theorem C12_round_trip_example_wf :
